@@ -56,19 +56,8 @@ def run(ctx, res):
     seen_f = {}
     for chunk_start in range(0, len(cases), 400):
         chunk = cases[chunk_start:chunk_start + 400]
-        # is the case inside the domain of the end-to-end theorem (Props/C01.v engine_document_is_generation_rules_document)?
-        # decided by the extracted predicate Model/Fragment.v theorem_applies; there the engine model and the Spec are PROVED equal
-        # whenever the run does not abort, so no deviation of the implementation may be attributed to a recorded finding
-        apps = ctx.model.run_many([['applies', mapcase.w_cfg(c['cfg']), mapcase.w_doc(c)] for c in chunk])
-        for rec, ap in zip(batch.run(chunk), apps):
-            in_domain = ap[0] == 'ok' and ap[1] in ('true', 'True', '1') and all(s_.get('kind', 'csv') == 'csv' for s_ in rec['case']['sources']) and not rec['case'].get('execs')
-            if in_domain:
-                res.count('theorem-domain')
-                if rec['model'][0] == 'ok' and rec['spec'] and rec['spec'][0] == 'ok' and not family.same(rec['model'], rec['spec']):
-                    res.disagreements.append({'what': 'inside the theorem domain the extracted Engine model and the extracted Spec differ (the theorem says they cannot)', 'replay': rec['case']})
-            tag = family.judge(res, rec, set() if (in_domain and rec['impl'][0] == 'ok') else known)
-            if in_domain and rec['impl'][0] == 'ok':
-                res.count('theorem-domain:completed-runs')
+        for rec in batch.run(chunk):
+            tag = family.judge(res, rec, known)
             for ft in features(rec['case']):
                 seen_f[ft] = seen_f.get(ft, 0) + 1
             if rec['spec'] and rec['spec'][0] == 'ok' and rec['spec'][1]:
